@@ -47,16 +47,16 @@ FULL = "Catalogs = {1, 2, 3}  Limits = {0, 1, 2, 3, 4, 5}  Daemons = {0, 1}  Bat
 SCOPE = {
     ("C04", "quick"): dict(mc="Catalogs = {1, 2}  Limits = {0, 2}  Daemons = {1}  Batches = {1, 2, 5}  Laters = {0, 2}", mc_steps=7,
                            enum="Catalogs = {1}  Limits = {0}  Daemons = {1}  Batches = {2}  Laters = {1}", enum_steps=4, enum_keep=250,
-                           sim=500, sim_steps=14),
+                           sim=500, sim_steps=14, explore=200),
     ("C04", "thorough"): dict(mc="Catalogs = {1, 2, 3}  Limits = {0, 2, 4}  Daemons = {0, 1}  Batches = {1, 2, 3, 4, 5}  Laters = {0, 1, 2}", mc_steps=8,
                               enum="Catalogs = {1, 2}  Limits = {0, 2}  Daemons = {1}  Batches = {1, 2}  Laters = {1}", enum_steps=5, enum_keep=4000,
-                              sim=6000, sim_steps=16),
+                              sim=6000, sim_steps=16, explore=4000),
     ("C03", "quick"): dict(mc="Catalogs = {1, 3}  Limits = {1, 2, 4, 5}  Daemons = {1}  Batches = {2, 4, 6}  Laters = {0, 2}", mc_steps=6,
                            enum="Catalogs = {1}  Limits = {2, 3}  Daemons = {1}  Batches = {2}  Laters = {3}", enum_steps=4, enum_keep=150,
-                           sim=300, sim_steps=12, sim_scope="Catalogs = {1, 2, 3}  Limits = {1, 2, 3, 4, 5}  Daemons = {0, 1}  Batches = {1, 2, 3, 4, 5, 6}  Laters = {0, 1, 2, 3}"),
+                           sim=300, sim_steps=12, explore=200, sim_scope="Catalogs = {1, 2, 3}  Limits = {1, 2, 3, 4, 5}  Daemons = {0, 1}  Batches = {1, 2, 3, 4, 5, 6}  Laters = {0, 1, 2, 3}"),
     ("C03", "thorough"): dict(mc="Catalogs = {1, 2, 3}  Limits = {1, 2, 3, 4, 5}  Daemons = {1}  Batches = {1, 2, 4, 6}  Laters = {0, 2, 3}", mc_steps=7,
                               enum="Catalogs = {1, 3}  Limits = {2, 3, 5}  Daemons = {1}  Batches = {2, 6}  Laters = {3}", enum_steps=5, enum_keep=3000,
-                              sim=4000, sim_steps=16, sim_scope="Catalogs = {1, 2, 3}  Limits = {1, 2, 3, 4, 5}  Daemons = {0, 1}  Batches = {1, 2, 3, 4, 5, 6}  Laters = {0, 1, 2, 3}"),
+                              sim=4000, sim_steps=16, explore=4000, sim_scope="Catalogs = {1, 2, 3}  Limits = {1, 2, 3, 4, 5}  Daemons = {0, 1}  Batches = {1, 2, 3, 4, 5, 6}  Laters = {0, 1, 2, 3}"),
 }
 
 
@@ -185,6 +185,113 @@ def generate(run, prop, rng):
     return enum, sim, exhaustive
 
 
+# ---------------------------------------------------------------------------------------------- seeded explorer
+# scopes larger than TLC's: 2-4 instance types (incomparable shapes, kube-reserved overhead, unavailable and capacity-override
+# offerings), 1-2 pools (taints, startup taints, zone requirement, limits on cpu / memory / nodes), 0-2 daemonsets, 2-5 + 0-2 pods
+# (tolerations, zone / instance-type selectors), scripted random histories with explorer addressing ("#k", type "?").
+SHAPES = [(2000, 4096), (4000, 4096), (2000, 8192), (4000, 8192), (8000, 8192), (4000, 16384), (1000, 2048)]
+PODS = [(300, 256), (600, 512), (900, 1500), (1500, 1024), (1700, 3000), (1900, 700), (2500, 2048), (3100, 2048), (3500, 6000)]
+DEDICATED = {"key": "dedicated", "value": "infra", "effect": "NoSchedule"}
+STARTUP = {"key": "startup.example/agent", "value": "", "effect": "NoSchedule"}
+TOL_DED = {"key": "dedicated", "op": "Equal", "value": "infra", "effect": "NoSchedule"}
+TOL_ALL = {"key": "", "op": "Exists", "value": "", "effect": ""}
+BLANK = {"c": "-", "deliver": False, "type": "-", "off": 0, "labels": False, "zero": False, "eph": False, "pod": "-"}
+
+
+def _pod(name, cpu, mem, created):
+    return {"name": name, "ns": "default", "node": "", "owner": "rs", "cpu": cpu, "mem": mem, "created": created, "labels": {}, "sel": {},
+            "terms": [], "pref": [], "tol": [], "ports": [], "vols": [], "aff": [], "anti": [], "prefAff": [], "prefAnti": [], "spread": []}
+
+
+def explore(rng, name):
+    types = []
+    for i, (cpu, mem) in enumerate(rng.sample(SHAPES, rng.choice([2, 2, 3, 3, 4]))):
+        t = {"name": "t%d" % i, "cpu": cpu, "mem": mem, "pods": rng.choice([110, 110, 110, 4]), "labels": {}, "ovCpu": rng.choice([0, 0, 100]),
+             "ovMem": rng.choice([0, 0, 256]), "offerings": []}
+        for z in ("a", "b"):
+            if rng.random() < 0.8:
+                t["offerings"].append({"zone": z, "ct": "od", "price": cpu // 40 + rng.randrange(5), "available": rng.random() < 0.85, "rid": "",
+                                       "rcap": 0, "cpuOv": 0, "memOv": 0})
+        if not any(o["available"] for o in t["offerings"]):
+            t["offerings"].append({"zone": "a", "ct": "spot", "price": cpu // 60, "available": True, "rid": "", "rcap": 0, "cpuOv": 0, "memOv": 0})
+        if rng.random() < 0.25:
+            o = rng.choice(t["offerings"])
+            o["available"] = True
+            o["cpuOv"] = rng.choice([cpu * 2, cpu // 2])
+            o["memOv"] = rng.choice([0, 0, mem * 2])
+        types.append(t)
+    pools = []
+    for i in range(rng.choice([1, 1, 1, 2])):
+        lim = {"cpu": 0, "mem": 0, "nodes": -1}
+        r = rng.random()
+        if i == 0 and r < 0.8:
+            if rng.random() < 0.7:
+                lim["cpu"] = rng.choice([2000, 4000, 6000, 8000, 10000, 12000])
+            if rng.random() < 0.5:
+                lim["mem"] = rng.choice([4096, 8192, 12288, 16384, 24576])
+            if rng.random() < 0.3:
+                lim["nodes"] = rng.choice([1, 2, 3])
+        pools.append({"name": "p%d" % i, "weight": 10 if i == 0 and rng.random() < 0.5 else 0, "reqs": [], "labels": {},
+                      "taints": [dict(DEDICATED)] if rng.random() < 0.25 else [], "startup": [dict(STARTUP)] if rng.random() < 0.7 else [],
+                      "limits": lim, "types": []})
+        if rng.random() < 0.2:
+            pools[-1]["reqs"].append({"key": "zone", "op": "In", "vals": [rng.choice(["a", "b"])], "n": 0, "min": 0})
+    dss = []
+    for i in range(rng.choice([0, 1, 1, 2])):
+        dss.append({"name": "ds%d" % i, "ns": "kube-system", "cpu": rng.choice([100, 200, 300]), "mem": rng.choice([64, 128, 512]), "sel": {}, "terms": [],
+                    "tol": [dict(TOL_ALL)] if i == 0 or rng.random() < 0.5 else [], "ports": []})
+    tainted = any(p["taints"] for p in pools)
+
+    def mkpod(j):
+        cpu, mem = rng.choice(PODS)
+        p = _pod("w%d" % j, cpu, mem, j)
+        if tainted and rng.random() < 0.7:
+            p["tol"] = [dict(TOL_DED)]
+        r = rng.random()
+        if r < 0.12:
+            p["sel"] = {"zone": rng.choice(["a", "b"])}
+        elif r < 0.2:
+            p["sel"] = {"it": rng.choice(types)["name"]}
+        return p
+    n0, n1 = rng.choice([2, 3, 3, 4, 5]), rng.choice([0, 1, 1, 2])
+    pods = [mkpod(j + 1) for j in range(n0)]
+    later = [mkpod(n0 + j + 1) for j in range(n1)]
+    steps, arrived = [], 0
+    stage = {}          # explorer's guess of each NodeClaim's stage (the driver skips what does not apply)
+    for rnd in range(rng.choice([2, 3, 3, 4])):
+        steps.append(dict(BLANK, a="Pass", deliver=True))
+        if rng.random() < 0.35:
+            steps.append(dict(BLANK, a="Pass", deliver=False))
+        for k in range(4):
+            c = "#%d" % k
+            st = stage.get(k, 0)
+            for _ in range(rng.choice([0, 1, 1, 2, 3, 6])):
+                if st == 0:
+                    steps.append(dict(BLANK, a="Launch", c=c, type="?", off=rng.randrange(8)))
+                elif st == 1:
+                    steps.append(dict(BLANK, a="Appear", c=c, labels=rng.random() < 0.5, zero=rng.random() < 0.5, eph=rng.random() < 0.5))
+                elif st == 2:
+                    steps.append(dict(BLANK, a="Register", c=c))
+                elif st == 3:
+                    steps.append(dict(BLANK, a=rng.choice(["Partial", "Daemon", "Init"]), c=c))
+                    if steps[-1]["a"] != "Init":
+                        st -= 1
+                elif st == 4:
+                    steps.append(dict(BLANK, a=rng.choice(["Bind", "Daemon", "Bind"]), c=c))
+                    st -= 1 if rng.random() < 0.5 else 0
+                st = min(st + 1, 5)
+                if rng.random() < 0.15:
+                    steps.append(dict(BLANK, a="Pass", deliver=True))
+            stage[k] = st
+        if arrived < len(later) and rng.random() < 0.6:
+            steps.append(dict(BLANK, a="AddPod", pod=later[arrived]["name"]))
+            arrived += 1
+        if rng.random() < 0.3:
+            steps.append(dict(BLANK, a=rng.choice(["Mark", "Delete"]), c="#%d" % rng.randrange(3)))
+    scn = {"options": {"create": True}, "types": types, "pools": pools, "nodes": [], "ds": dss, "scs": [], "pvs": [], "pvcs": [], "pods": pods}
+    return {"name": name, "scenario": scn, "later": later, "steps": steps}
+
+
 def witnesses():
     out = []
     for f in sorted(glob.glob(os.path.join(vlib.ROOT, "checks", "witness", "MP-*.json"))):
@@ -222,7 +329,8 @@ def pipeline(run, prop):
     procs = 4 if dev else min(12, vlib.NCPU)
     cex = closed_models(run, prop)
     enum, sim, exhaustive = generate(run, prop, rng)
-    behs = [complete(b) for b in cex + witnesses() + enum + sim]
+    expl = [explore(rng, "x-%d-%d" % (run.seed, i)) for i in range(SCOPE[(prop, run.tier)]["explore"])]
+    behs = [complete(b) for b in cex + witnesses() + enum + sim + expl]
     files, sums = run_driver(run, behs, "mp-" + prop.lower(), procs)
     bad = [s for s in sums if s.get("status") != "ok"]
     if bad:
@@ -246,13 +354,14 @@ def pipeline(run, prop):
     if xdrift:
         run.notes.append("MODEL-DRIFT: Cluster.NodePoolResourcesFor differed from the API truth right after a full informer delivery in %d "
                          "places (C11's business, not judged here), e.g. %s" % (len(xdrift), {k: xdrift[0].get(k) for k in ("file", "line")}))
-    skips = sum(s.get("skips", 0) for s in sums)
-    steps = sum(len(b["steps"]) for b in behs)
+    tlc_names = {b["name"] for b in behs if not b["name"].startswith("x-")}
+    skips = sum(s.get("skips", 0) - s.get("skipsLaunchRest", 0) for s in sums if s["name"] in tlc_names)
+    steps = sum(len(b["steps"]) for b in behs if b["name"] in tlc_names)
     run.extra_cov.update({
         "behaviours_replayed": len(behs), "counterexample_behaviours": len(cex), "passes": sum(s.get("passes", 0) for s in sums),
         "passes_that_ran": sum(s.get("passesRan", 0) for s in sums), "nodeclaims_created": sum(s.get("created", 0) for s in sums),
         "launches": sum(s.get("launches", 0) for s in sums), "opens": sum(s.get("opens", 0) for s in sums),
-        "driver_steps": steps, "driver_steps_skipped": skips})
+        "explorer_behaviours": len(expl), "tlc_driver_steps": steps, "tlc_driver_steps_skipped": skips})
     if steps and skips > steps * 0.25:
         raise vlib.InfraError("the real code diverged from the model's prediction in %d of %d steps (model and code must be reconciled)" % (skips, steps))
     run.exhaustive = False
